@@ -129,7 +129,7 @@ pub fn fixed_conforming() -> Vec<(&'static str, &'static str)> {
         ("handler-calls-a-helper-that-reads-another-csr", ".data\nsave_area: .space 64\nticks: .word 0\n.text\nmain:\n    la t0, save_area\n    csrrw zero, uscratch, t0\n    la t0, handler\n    csrrw zero, utvec, t0\n    csrrsi zero, ustatus, 1\n    li s0, 0\nwait:\n    addi s0, s0, 1\n    li t1, 100000\n    blt s0, t1, wait\n    li a7, 10\n    ecall\nhandler:\n    csrr a0, uscratch\n    sw ra, 0(a0)\n    sw s0, 4(a0)\n    jal cause\n    la s0, ticks\n    sw a0, 0(s0)\n    csrr a0, uscratch\n    lw s0, 4(a0)\n    lw ra, 0(a0)\n    uret\ncause:\n    csrr a0, ucause\n    andi a0, a0, 15\n    ret\n"),
         ("routine-shared-by-main-and-a-handler", ".data\nticks: .word 0\n.text\nmain:\n    la t0, handler\n    csrw t0, utvec\n    csrsi ustatus, 1\n    li a0, 3\n    jal work\n    li a7, 1\n    ecall\n    li a7, 10\n    ecall\nwork:\n    addi sp, sp, -8\n    sw ra, 0(sp)\n    sw s0, 4(sp)\n    mv s0, a0\n    la a0, ticks\n    jal bump\n    add a0, a0, s0\n    lw s0, 4(sp)\n    lw ra, 0(sp)\n    addi sp, sp, 8\n    ret\nbump:\n    lw t0, 0(a0)\n    addi t0, t0, 1\n    sw t0, 0(a0)\n    mv a0, t0\n    ret\nhandler:\n    addi sp, sp, -12\n    sw ra, 0(sp)\n    sw a0, 4(sp)\n    sw t0, 8(sp)\n    la a0, ticks\n    jal bump\n    lw t0, 8(sp)\n    lw a0, 4(sp)\n    lw ra, 0(sp)\n    addi sp, sp, 12\n    uret\n"),
         // floating-point data (the values do not matter to the analysis)
-        ("float-data", ".data\nf: .float 3.14\nd: .double 0.5, 2.25\n.text\nmain:\n    li a7, 10\n    ecall\n"),
+        ("float-data", ".data\nf: .float 3.14, .5, 1.\nd: .double 0.5, 2.25, .75, 2.\n.text\nmain:\n    li a7, 10\n    ecall\n"),
         ("branch-target-data-code", "main:\n    li a7, 5\n    ecall\n    beqz a0, done\n    li a7, 1\n    ecall\ndone:\n.data\nbye: .string \"bye\\n\"\n.text\n    la a0, bye\n    li a7, 4\n    ecall\n    li a7, 10\n    ecall\n"),
     ]
 }
